@@ -1558,7 +1558,9 @@ class CircuitTemplate(AbstractBaseTemplate):
             t_idx = indices[target]
             edge_len = len(s_idx)
 
-            # group edges that connect the same vectorized node variables via the same edge templates
+            # group edges that connect the same vectorized node variables via the same edge templates; edges with a
+            # distributed delay (delay and spread) are kept apart from edges with a plain delay
+            delayed = (delayed, bool(edge_dict.get('spread')))
             if (source_new, target_new, template, delayed) in edge_col:
 
                 # extend edge dict by edge variables
